@@ -10,7 +10,7 @@ import (
 func init() {
 	register("C07", &ruleSet{
 		run:    runC07,
-		floors: map[string]int{"O1": 4, "O2": 4, "O3": 4, "O4": 1, "O5": 3, "O6": 2},
+		floors: map[string]int{"O1": 4, "O2": 4, "O3": 4, "O4": 1, "O5": 3, "O6": 2, "O7": 1},
 		explain: "Decides the demand gate, which is a comparator / dominance fact (the recovery half - saturated drop-free samples bring the estimate to within one of its " +
 			"ceiling in a bounded number of samples - quantifies over numeric trajectories and is not applicable): (O1) for AIMD, Vegas, Gradient and Gradient2 every store of " +
 			"the estimate that is not proved <= the old estimate lies only on paths that established 'not app-limited' with the property's own comparator: 2 x inFlight >= " +
@@ -30,6 +30,7 @@ func runC07(p *Prog, l *Ledger) {
 	l.Rule("O5", "a saturated drop-free sample moves the estimate, or the path has bounded one measured quantity from below and from above (the band in which the algorithm holds the estimate)")
 	l.Rule("O6", "probing (decided by the C15/O4 rule on the same tree): a probe resets the estimate to its floor, so probes fire one period apart and not at all when disabled")
 	importObligations(p, l, "C15", "O6", func(o *Obligation) bool { return o.Rule == "O4" })
+	l.Rule("O7", "a loss-based algorithm (AIMD) never lowers its estimate on a drop-free sample")
 	l.Rule("O4", "the default step tables cannot produce a zero step: every entry of the pre-computed lookup tables of limit/functions is proved >= 1 (a zero alpha/beta/increase step is a stuck state: healthy saturation no longer raises the estimate)")
 	if ok, why := tableStepNonNegative(p); ok {
 		l.OK("O4", "limit/functions/tables", "", "every stored table entry is a conversion of max(1, ...)")
@@ -105,6 +106,36 @@ func runC07(p *Prog, l *Ledger) {
 			})
 			l.Check(len(bad5) == 0, "O5", key+"/saturated-sample-moves", p.FuncPos(af.Fn), fmt.Sprintf("%d saturated drop-free paths without a store, each inside a two-sided band", n5), "healthy saturation can fail to raise the estimate: a stuck state", bad5...)
 		}
+		// O7: a loss-based algorithm (no RTT in its update: AIMD) never lowers the estimate on a drop-free sample; "healthy
+		// saturation raises it by the configured increment on every sample" leaves no room for a decrease decided by
+		// something else (a hidden latency timeout)
+		if !af.A.Float && af.Drop != nil {
+			var bad7 []string
+			n7 := 0
+			EnumPaths(af.Fn, 400000, func(pa *Path) bool {
+				if !pa.IsReturn() {
+					return true
+				}
+				if isDrop, known := pa.FactOn(af.Drop, len(pa.Blocks)); !known || isDrop {
+					return true
+				}
+				for _, s := range af.Stores {
+					st := pa.StepOf(s.Instr)
+					if st < 0 {
+						continue
+					}
+					n7++
+					pr := &prover{p: p, pa: pa, step: st, entry: af.Entry}
+					c04Axioms(p, pr, af.A, pa, l)
+					pr.budget = 8000
+					if !pr.rel(atomVal(s.Val), atomField(af.A.Est), false, 0) {
+						bad7 = append(bad7, fmt.Sprintf("%s: a drop-free sample stores an estimate that is not proved >= the old one: %s", p.At(s.Instr), joinWitness(p.DescribePath(pa))))
+					}
+				}
+				return len(bad7) < 2
+			})
+			l.Check(len(bad7) == 0 && n7 > 0, "O7", key+"/drop-free-never-lowers", p.FuncPos(af.Fn), fmt.Sprintf("%d stores on drop-free paths, each proved >= the old estimate", n7), "a drop-free sample can lower the estimate of a loss-based algorithm", bad7...)
+		}
 		for si, s := range af.Stores {
 			skey := fmt.Sprintf("%s/%s", key, af.Keys[si])
 			var bad []string
@@ -129,6 +160,14 @@ func runC07(p *Prog, l *Ledger) {
 					return true
 				}
 				ratio := notAppLimited(pr, af, st+1)
+				// the gate is decided on the estimate that is updated: a load of the estimate that a branch on this path
+				// tested is not separated from the store by a release of the algorithm's lock
+				if ratio != 0 {
+					if why := c07GateInSameSection(p, pa, af, s.Instr); why != "" {
+						bad = append(bad, why)
+						return len(bad) < 2
+					}
+				}
 				switch {
 				case ratio == want:
 					ngated++
@@ -172,4 +211,67 @@ func runC07(p *Prog, l *Ledger) {
 			l.Check(len(bad2) == 0 && n2 > 0, "O2", skey, p.At(s.Instr), fmt.Sprintf("%d paths compute the new estimate and all store it", n2), "a computed update can be dropped: the estimate can get stuck", bad2...)
 		}
 	}
+}
+
+// c07GateInSameSection: every load of the estimate that a branch on the path tested before the store is made in the
+// critical section that stores - between that load and the store the algorithm's mutex is not released.
+func c07GateInSameSection(p *Prog, pa *Path, af *algoFn, store ssa.Instruction) string {
+	storeStep := pa.StepOf(store)
+	var tested []ssa.Instruction
+	for _, f := range pa.Facts {
+		if f.Step > storeStep {
+			continue
+		}
+		seen := map[ssa.Value]bool{}
+		var walk func(v ssa.Value, d int)
+		walk = func(v ssa.Value, d int) {
+			if v == nil || seen[v] || d > 6 {
+				return
+			}
+			seen[v] = true
+			if fr, _, ok := loadedField(v); ok {
+				if sameField(fr, af.A.Est) {
+					if ins, isI := v.(ssa.Instruction); isI && ins.Parent() == af.Fn {
+						tested = append(tested, ins)
+					}
+				}
+				return
+			}
+			if ins, ok := v.(ssa.Instruction); ok {
+				for _, op := range ins.Operands(nil) {
+					if op != nil && *op != nil {
+						walk(*op, d+1)
+					}
+				}
+			}
+		}
+		walk(f.Cond, 0)
+	}
+	if len(tested) == 0 {
+		return ""
+	}
+	why := ""
+	in := map[ssa.Instruction]bool{}
+	for _, t := range tested {
+		in[t] = true
+	}
+	active := false
+	pa.Each(func(step int, ins ssa.Instruction) bool {
+		if in[ins] {
+			active = true
+		}
+		if ins == store {
+			return false
+		}
+		if active {
+			if call, ok := ins.(*ssa.Call); ok {
+				if op, _ := p.lockOpOf(p.CallOf(call)); op == opUnlock || op == opRUnlock {
+					why = fmt.Sprintf("%s: the lock is released between the test of the estimate that gates the update and the store: the gate was decided on an estimate another sample may have changed since (an app-limited sample can raise it)", p.At(ins))
+					return false
+				}
+			}
+		}
+		return true
+	})
+	return why
 }
